@@ -693,6 +693,31 @@ Fixpoint run_adapter (st : rstate) (mws : list (Z * bool)) (h : list hstep) : li
   | HServe segs order :: r => to_handler st mws order segs :: run_adapter st mws r
   end.
 
+(* ONE *mux.Message -- hence one RouteParams object -- dispatched again and
+   again (a router nested as handler of another router after a handler that
+   rewrote the Uri-Path; glue code that recycles the mux.Message and only
+   changes the options): every dispatch is handed the RouteParams the previous
+   one left behind.  Router.ServeCOAP reads its path from the message's
+   Uri-Path options AS THEY ARE NOW ("path, err := req.Options().Path()") --
+   [serve_into] takes it from [segs], never from the RouteParams -- and Match
+   writes into the RouteParams it is given. *)
+Fixpoint run_reuse (st : rstate) (mws : list (Z * bool)) (h : list hstep) (p : rp) : list (list ev * rp) :=
+  match h with
+  | [] => []
+  | HOp o :: r => run_reuse (fst (apply_op st o)) mws r p
+  | HServe segs order :: r =>
+      let out := serve_into st mws order segs p in
+      out :: run_reuse st mws r (snd out)
+  end.
+
+(* the RouteParams handed to the dispatch that follows the history [h] *)
+Fixpoint reuse_params (st : rstate) (mws : list (Z * bool)) (h : list hstep) (p : rp) : rp :=
+  match h with
+  | [] => p
+  | HOp o :: r => reuse_params (fst (apply_op st o)) mws r p
+  | HServe segs order :: r => reuse_params st mws r (snd (serve_into st mws order segs p))
+  end.
+
 (* ------------------------------------------------------------------ *)
 (** * fine-grained locking: sync.RWMutex explicit, the scan one route at a time *)
 
